@@ -22,6 +22,7 @@ import (
 type cStep struct {
 	K   string // Acquire Record Tick Manual
 	I   int
+	Cxl bool // Record: the execution's context is cancelled just before its function returns
 	Ok  bool
 	R   int64
 	Dt  int64
@@ -61,7 +62,10 @@ func runSchedule(t *testing.T, calls []BCallD, n int, nsteps int, variant []stri
 		status := make([]int, n)
 		gens := make([]int, n)
 		gates := make([]chan gateMsg, n)
+		ctxs := make([]context.Context, n)
+		cancels := make([]context.CancelFunc, n)
 		for i := range gates {
+			ctxs[i], cancels[i] = context.WithCancel(context.Background())
 			gates[i] = make(chan gateMsg)
 			gens[i] = -1
 		}
@@ -89,9 +93,9 @@ func runSchedule(t *testing.T, calls []BCallD, n int, nsteps int, variant []stri
 				pols = []failsafe.Policy[int]{cb}
 			}
 			if variant[i] == "async" {
-				failsafe.NewExecutor[int](pols...).WithContext(context.Background()).GetAsync(fn).Get()
+				failsafe.NewExecutor[int](pols...).WithContext(ctxs[i]).GetAsync(fn).Get()
 			} else {
-				failsafe.Get(fn, pols...)
+				failsafe.NewExecutor[int](pols...).WithContext(ctxs[i]).Get(fn)
 			}
 			gens[i] = -1
 			if ran {
@@ -131,6 +135,9 @@ func runSchedule(t *testing.T, calls []BCallD, n int, nsteps int, variant []stri
 				s = cStep{K: "Acquire", I: Pick(rng, idle)}
 			case c < 14 && len(flying) > 0:
 				s = cStep{K: "Record", I: Pick(rng, flying), Ok: rng.Chance(40), R: Pick(rng, []int64{0, 1, 7})}
+				if !s.Ok && rng.Chance(35) {
+					s.Cxl = true // a trial that ends because its execution was cancelled still records its outcome
+				}
 			case c < 18:
 				s = cStep{K: "Tick", Dt: Pick(rng, []int64{1, delay - 1, delay, delay + 1, 1 + rng.I64n(delay+2), int64(cb.RemainingDelay()), int64(cb.RemainingDelay()) - 1})}
 				if s.Dt < 0 {
@@ -148,6 +155,9 @@ func runSchedule(t *testing.T, calls []BCallD, n int, nsteps int, variant []stri
 			case "Acquire":
 				go run(s.I)
 			case "Record":
+				if s.Cxl {
+					cancels[s.I]()
+				}
 				gates[s.I] <- gateMsg{s.Ok, int(s.R)}
 			case "Tick":
 				time.Sleep(time.Duration(s.Dt))
@@ -172,6 +182,9 @@ func runSchedule(t *testing.T, calls []BCallD, n int, nsteps int, variant []stri
 			}
 		}
 		synctest.Wait()
+		for i := 0; i < n; i++ {
+			cancels[i]()
+		}
 	})
 	return
 }
@@ -256,6 +269,9 @@ func TestDrive_C04(t *testing.T) {
 		for i, s := range steps {
 			ss[i] = s.Gallina()
 			w.Stat("step=" + s.K)
+			if s.Cxl {
+				w.Stat("record_after_cancellation")
+			}
 			if strings.Contains(snaps[i], "sn_state := 2") {
 				halfOpenSeen = true
 			}
